@@ -4,6 +4,8 @@ import (
 	"bytes"
 	"encoding/base64"
 	"fmt"
+	"net/http"
+	"net/http/httptest"
 	"strings"
 	"sync"
 	"testing"
@@ -25,6 +27,11 @@ func (q c14Req) String() string {
 	return fmt.Sprintf("chain=%d old=%d new=%d proof=%s sig=%s body=%s", q.Chain, q.Old, q.New, q.Proof, q.Sig, q.Body)
 }
 
+// c14Others are further logs known to the witness (their keys must not count
+// for another origin).
+var c14Others = map[*WitLog][]*WitLog{}
+var c14OthersMu sync.Mutex
+
 func buildC14(e *WitEnv, l *WitLog, rng *Rng, q c14Req) []byte {
 	chain := l.Chains[q.Chain]
 	if q.New > len(chain.lh) {
@@ -45,6 +52,20 @@ func buildC14(e *WitEnv, l *WitLog, rng *Rng, q c14Req) []byte {
 		skey, _, _ := note.GenerateKey(rng, l.Origin)
 		s, _ := note.NewSigner(skey)
 		noteBytes, _ = note.Sign(&note.Note{Text: text}, s)
+	case "other-known-log":
+		// the right text, signed only by the key(s) of OTHER logs the witness knows
+		c14OthersMu.Lock()
+		others := c14Others[l]
+		c14OthersMu.Unlock()
+		o := others[rng.Intn(len(others))]
+		noteBytes = o.signed(text)
+		if rng.Intn(3) == 0 && len(others) > 1 {
+			var ss []note.Signer
+			for _, x := range others {
+				ss = append(ss, x.signer)
+			}
+			noteBytes, _ = note.Sign(&note.Note{Text: text}, ss...)
+		}
 	case "other-origin":
 		// valid signature by the log key, but over a text with another origin line
 		other := strings.Replace(text, l.Origin, l.Origin+"x", 1)
@@ -159,7 +180,14 @@ func runC14History(r *Run, rng *Rng, hn int) {
 	}
 	forkAt := 2 + rng.Intn(6)
 	l := newWitLog(rng.Fork("log"), fmt.Sprintf("verif.example/log-c14-%d", hn), 12+rng.Intn(6), []int{forkAt, forkAt + 2}, 8)
-	if err := e.AddLogs(false, l); err != nil {
+	// two more logs the witness knows: their keys are valid for their own origin only
+	oB := newWitLog(rng.Fork("logB"), fmt.Sprintf("verif.example/log-c14-%d-b", hn), 3, nil, 0)
+	oC := newWitLog(rng.Fork("logC"), fmt.Sprintf("verif.example/log-c14-%d-c", hn), 3, nil, 0)
+	c14OthersMu.Lock()
+	c14Others[l] = []*WitLog{oB, oC}
+	c14OthersMu.Unlock()
+	defer func() { c14OthersMu.Lock(); delete(c14Others, l); c14OthersMu.Unlock() }()
+	if err := e.AddLogs(false, l, oB, oC); err != nil {
 		panic(err)
 	}
 	var trace []string
@@ -184,7 +212,7 @@ func runC14History(r *Run, rng *Rng, hn int) {
 			q.Proof = pickOne(rng, []string{"empty", "flipped", "truncated", "extended", "of-fork"})
 		}
 		if rng.Intn(9) == 0 {
-			q.Sig = pickOne(rng, []string{"corrupted", "unknown-key", "other-origin"})
+			q.Sig = pickOne(rng, []string{"corrupted", "unknown-key", "other-origin", "other-known-log", "other-known-log"})
 		}
 		if rng.Intn(9) == 0 {
 			q.Body = pickOne(rng, []string{"no-blank-line", "old-negative", "old-leading-zero", "bad-hash", "extension", "no-old", "unknown-origin"})
@@ -285,8 +313,145 @@ func TestC14Sequential(t *testing.T) {
 		}
 		runC14History(r, hr, i)
 	}
+	// overlapping instances (a restart that overlaps, a second machine)
+	for i := 0; i < pick(24, 400); i++ {
+		hr := rng.Fork(fmt.Sprint("overlap", i))
+		if !mine(i) {
+			continue
+		}
+		runC14Overlap(r, hr, i)
+	}
 	if r.Counter("cosignatures") == 0 {
 		r.Inconcl("no cosignature was ever issued")
+	}
+}
+
+// runC14Overlap: two witness processes with the same keys on the same lock
+// store. Instance 1 has the recorded checkpoint cached; instance 2 then
+// records further ones; instance 1 is then asked to cosign from ITS idea of
+// the recorded size (a fork, or an older main-chain size). Whatever it
+// answers, the lock history must stay one chain of non-decreasing size, and a
+// 200 must name a checkpoint that is recorded.
+func runC14Overlap(r *Run, rng *Rng, hn int) {
+	e := NewWitEnv(r, rng.Fork("env"), false)
+	defer e.Cleanup()
+	if err := e.Start(); err != nil {
+		panic(err)
+	}
+	forkAt := 3 + rng.Intn(5)
+	l := newWitLog(rng.Fork("log"), fmt.Sprintf("verif.example/log-c14o-%d", hn), 16, []int{forkAt}, 8)
+	if err := e.AddLogs(false, l); err != nil {
+		panic(err)
+	}
+	var trace []string
+	e.CaseInfo = func() any { return map[string]any{"workload": "overlapping-instances", "fork_at": forkAt, "requests": trace} }
+	post := func(who string, w interface {
+		Handler() http.Handler
+	}, q c14Req) int {
+		body := buildC14(e, l, rng, q)
+		req := httptest.NewRequest("POST", "/add-checkpoint", bytes.NewReader(body))
+		rec := httptest.NewRecorder()
+		w.Handler().ServeHTTP(rec, req)
+		r.Eval(1)
+		trace = append(trace, fmt.Sprintf("%s: %s -> %d", who, q.String(), rec.Code))
+		if rec.Code == 200 {
+			root := l.Chains[q.Chain].root(q.New)
+			if msg := checkCosigBody(rec.Body.Bytes(), l.Origin, int64(q.New), root, e.V1, e.V2); msg != "" {
+				e.violate("cosignature-body", "200 response: %s", msg)
+			}
+			found := false
+			for _, cm := range l.Commits {
+				if cm.Size == int64(q.New) && cm.Root == root {
+					found = true
+				}
+			}
+			if !found {
+				e.violate("cosignature-released-without-record", "instance %s released a cosignature for size %d (chain %d) that was never recorded in the lock store", who, q.New, q.Chain)
+			}
+			if s, rt, _ := e.recorded(l); s < int64(q.New) || (s == int64(q.New) && rt != root) {
+				e.violate("cosignature-released-before-record", "instance %s answered 200 for size %d while the lock store holds size %d", who, q.New, s)
+			}
+			r.Count("cosignatures", 1)
+		}
+		return rec.Code
+	}
+	w1 := e.Wit
+	// instance 1 records (and caches) size s on the main chain, s <= forkAt
+	s := 1 + rng.Intn(forkAt)
+	if post("one", w1, c14Req{Chain: 0, Old: 0, New: s, Proof: "correct", Sig: "valid", Body: "ok"}) != 200 {
+		e.violate("honest-update-refused", "first update 0 -> %d refused", s)
+		return
+	}
+	w2, _, err := e.StartOverlapping("witness-two", false)
+	if err != nil {
+		e.violate("witness-restart-failed", "second NewWitness on the same stores failed: %v", err)
+		return
+	}
+	// instance 2 moves the record on (once or twice)
+	cur := s
+	for k := 0; k < 1+rng.Intn(2); k++ {
+		nw := cur + 1 + rng.Intn(3)
+		if post("two", w2, c14Req{Chain: 0, Old: cur, New: nw, Proof: "correct", Sig: "valid", Body: "ok"}) != 200 {
+			e.violate("honest-update-refused", "second instance refused the honest update %d -> %d", cur, nw)
+			return
+		}
+		cur = nw
+	}
+	// instance 1, still believing s, is asked for something that conflicts
+	kind := pickOne(rng, []string{"fork", "older-main", "same-as-two", "beyond"})
+	q := c14Req{Chain: 1, Old: s, New: forkAt + 1 + rng.Intn(3), Proof: "correct", Sig: "valid", Body: "ok"}
+	switch kind {
+	case "older-main":
+		q = c14Req{Chain: 0, Old: s, New: s + rng.Intn(cur-s), Proof: "correct", Sig: "valid", Body: "ok"}
+		if q.New == s {
+			q.New = s // re-cosign of the stale size
+		}
+	case "same-as-two":
+		q = c14Req{Chain: 0, Old: s, New: cur, Proof: "correct", Sig: "valid", Body: "ok"}
+	case "beyond":
+		q = c14Req{Chain: 0, Old: s, New: cur + 1, Proof: "correct", Sig: "valid", Body: "ok"}
+	}
+	code := post("one", w1, q)
+	r.DistinctKey(fmt.Sprintf("overlap/%s/%d", kind, code))
+	if rs, _, _ := e.recorded(l); rs < int64(cur) {
+		e.violate("witness-size-decreased", "the recorded size went back from %d to %d after a request to the stale instance (%s)", cur, rs, kind)
+	}
+	// afterwards both instances must converge on the record: a protocol-following
+	// client gets a cosignature from either within 5 requests (a doubly stale
+	// instance needs: 409 with its stale size, a failed compare-and-swap that
+	// drops its cache, 409 with the fresh size, success)
+	for _, who := range []string{"one", "two"} {
+		w := w1
+		if who == "two" {
+			w = w2
+		}
+		rs, rroot, _ := e.recorded(l)
+		chain := -1
+		for ci, c := range l.Chains {
+			if int(rs) < len(c.lh) && c.root(int(rs)) == rroot {
+				chain = ci
+				break
+			}
+		}
+		if chain < 0 {
+			continue
+		}
+		old := int(rs)
+		got := false
+		for try := 0; try < 5 && !got; try++ {
+			rec := PostTo(w, "/add-checkpoint", buildC14(e, l, rng, c14Req{Chain: chain, Old: old, New: int(rs) + 1, Proof: "correct", Sig: "valid", Body: "ok"}))
+			r.Eval(1)
+			trace = append(trace, fmt.Sprintf("%s: follow-up old=%d new=%d -> %d", who, old, rs+1, rec.Code))
+			switch rec.Code {
+			case 200:
+				got = true
+			case 409:
+				fmt.Sscanf(rec.Body.String(), "%d", &old)
+			}
+		}
+		if !got {
+			e.violate("witness-stuck-after-overlap", "instance %s gave no cosignature for %d -> %d within 5 protocol-following requests after the overlap (stale answer, failed compare-and-swap, fresh size, success)", who, rs, rs+1)
+		}
 	}
 }
 
@@ -397,7 +562,11 @@ func runC14Concurrent(r *Run, rng *Rng, hn int) {
 		rec := e.Post("/add-checkpoint", buildC14(e, l, rng.Fork("forced"), q), nil)
 		r.DistinctKey(fmt.Sprintf("forced-%s/%d", fault, rec.Code))
 		if rec.Code == 200 {
-			e.violate("cosignature-despite-failed-step", "add-checkpoint answered 200 although %s was injected", fault)
+			// legal only if the checkpoint is durably recorded all the same (e.g. a
+			// safe retry): the property demands record-before-release, nothing else
+			if s, rt, _ := e.recorded(l); s != 1 || rt != l.Chains[0].root(1) {
+				e.violate("cosignature-released-before-record", "add-checkpoint answered 200 under an injected %s although the lock store does not hold that checkpoint (recorded size %d)", fault, s)
+			}
 		}
 		progress(rng.Fork("forced-progress"), "right after the forced fault")
 		e.In.Plan = plan
